@@ -114,22 +114,27 @@ func C16(c *Ctx) {
 				r.Check("C16-5", FnKey(h)+":castNode-after-copier", c.Pos(cs.Pos()), okCopier && d.Implies(notSlice, declined),
 					"a pair of slice fields can reach the plain-assignment ladder without the slice copier having declined (dst.F = src.F shares the backing array); reach: "+d.Describe(c.O))
 			}
-			// the gate in front of the copier is exactly the two slice tests
+			// the copier is asked for slices only. (Which further conditions stand in front of it does not matter here: a
+			// pair of slices that gets past them without the copier having been asked fails the obligation above, and a
+			// pair that is filtered out altogether is not assigned at all.)
 			for _, cp := range copies {
 				d := c.ReachOf(cp.Instr)
-				extra := ""
+				nSlice := 0
+				okSlices := len(d) > 0
 				for _, cj := range d {
+					k := 0
 					for _, l := range cj {
-						t, _ := c.Canon(l)
-						switch {
-						case t.IsCallTo(fnIsSlice):
-						case t.IsCallTo("(" + pOpt + "Options).CompareFieldName"), t.IsCallTo(fnAccessible):
-						default:
-							extra = t.String()
+						if t, pos := c.Canon(l); pos && t.IsCallTo(fnIsSlice) {
+							k++
 						}
 					}
+					if k < 2 {
+						okSlices = false
+					}
+					nSlice = k
 				}
-				r.Check("C16-5", FnKey(h)+":copier-gate", c.Pos(cp.Pos()), extra == "", "a condition other than `both fields are slices` decides whether the slice copier is asked: "+extra)
+				_ = nSlice
+				r.Check("C16-5", FnKey(h)+":copier-gate", c.Pos(cp.Pos()), okSlices, "the slice copier is asked for a pair that was not tested to be two slices; reach: "+d.Describe(c.O))
 			}
 		}
 	}
